@@ -848,6 +848,18 @@ def build_unit(verif, repo, template_path, canary=False, soft=False, extra_fns=N
                         emit('\n', 'TPL', rel)
                         if xw: emit('}\n', 'TPL', rel)
                 i += 1; continue
+            if cmd == 'opaque':
+                # //@ opaque <repo file> <name> [in "<impl header>"] : signature only, body NOT verified, NO contract (listed as unverified)
+                xs = FnSpec(); xs.file, xs.name, xs.tline = parts[1], parts[2], i + 1
+                if 'in' in parts[3:]: xs.within = parts[parts.index('in') + 1].replace('impl ', '', 1)
+                rec = []
+                pieces = assemble_fn(repo, xs, rec, None, stub=True)
+                u.stubs.append({'fn': parts[2], 'home': 'opaque (unverified, no contract)', 'sha256': rec[0]['sha256']})
+                emit('#[verifier::external_body]\n', 'TPL', '%s:%d' % (rel, i + 1))
+                for txt, tag in pieces:
+                    emit(txt, 'STUB', '%s:%d' % (rel, i + 1))
+                emit('\n', 'TPL', rel)
+                i += 1; continue
             if cmd == 'stub':
                 # //@ stub <template> <repo file> <name> [in "<impl header>"] : same signature and contract as in the home unit, body assumed
                 tpl = os.path.join(verif, parts[1])
